@@ -683,6 +683,33 @@ func (g *grammarCtx) listRule(r *RuleResult) {
 		for _, cd := range condsAt(ec.Block()) {
 			var ph ssa.Value
 			switch x := cd.V.(type) {
+			case *ssa.BinOp:
+				// the counter form: `n == 0` where n is 0 before the loop and is incremented after each call of the callback
+				cnt, isPhi := x.X.(*ssa.Phi)
+				zero, isZero := constInt(x.Y)
+				empty := (x.Op == token.EQL && cd.True) || ((x.Op == token.NEQ || x.Op == token.GTR) && !cd.True)
+				if isPhi && isZero && zero == 0 && empty {
+					startsAtZero, countsCalls := false, false
+					for _, e := range cnt.Edges {
+						if k, ok := constInt(e); ok && k == 0 {
+							startsAtZero = true
+						}
+						if add, ok := e.(*ssa.BinOp); ok && add.Op == token.ADD && add.X == ssa.Value(cnt) {
+							if k, ok := constInt(add.Y); ok && k >= 1 {
+								allInstrs(some, func(in ssa.Instruction) {
+									if ci, ok := in.(ssa.CallInstruction); ok {
+										if _, isPrm := ci.Common().Value.(*ssa.Parameter); isPrm && in.Block().Dominates(add.Block()) {
+											countsCalls = true
+										}
+									}
+								})
+							}
+						}
+					}
+					if startsAtZero && countsCalls && len(cnt.Edges) == 2 {
+						okFlag = true
+					}
+				}
 			case *ssa.Phi:
 				ph = x
 			case *ssa.Call:
@@ -1128,6 +1155,49 @@ func (g *grammarCtx) siblingRule(r *RuleResult) {
 				}
 			}
 		})
+		// helpers that are handed the node and fill its lists themselves (`p.parseFieldsDefinition(&def)`)
+		{
+			seenH := map[*ssa.Function]bool{}
+			var viaHelper func(fn *ssa.Function, depth int)
+			viaHelper = func(fn *ssa.Function, depth int) {
+				allInstrs(fn, func(in ssa.Instruction) {
+					ci, ok := in.(ssa.CallInstruction)
+					if !ok {
+						return
+					}
+					h := ci.Common().StaticCallee()
+					if h == nil || seenH[h] || !inParserPkg(g.m, h) || len(h.Blocks) == 0 || depth > 2 {
+						return
+					}
+					for i, a := range ci.Common().Args {
+						pt, isPtr := a.Type().Underlying().(*types.Pointer)
+						if !isPtr {
+							continue
+						}
+						if _, isStruct := pt.Elem().Underlying().(*types.Struct); !isStruct || namedOf(pt.Elem()) == nil || namedOf(pt.Elem()).Obj().Name() == "parser" {
+							continue
+						}
+						if i >= len(h.Params) {
+							continue
+						}
+						prm := h.Params[i]
+						seenH[h] = true
+						allInstrs(h, func(in2 ssa.Instruction) {
+							if x, ok := in2.(*ssa.Store); ok {
+								if fa, ok := x.Addr.(*ssa.FieldAddr); ok && stripChange(fa.X) == ssa.Value(prm) {
+									_, f, _, _ := fieldOf(fa)
+									if _, isSlice := fa.Type().(*types.Pointer).Elem().Underlying().(*types.Slice); isSlice {
+										filled[f] = true
+									}
+								}
+							}
+						})
+						viaHelper(h, depth+1)
+					}
+				})
+			}
+			viaHelper(ext, 0)
+		}
 		// closures append to def.OperationTypes etc.
 		for _, cl := range ext.AnonFuncs {
 			allInstrs(cl, func(in ssa.Instruction) {
